@@ -282,6 +282,16 @@ func Run(c *corr.Ctx) {
 			}
 		}
 	}
+	// "smart" payload types (replaceSmartPayloadType): payload token shapes x rtpmap value shapes
+	for _, ptTok := range []string{"smart/1/90000", "smart/0/1", "smart/12/90000", "smart/1/", "smart/a/90000", "smart/1/90000x", "Smart/1/90000", "smart/1/90000/2", "smart//9"} {
+		for _, rm := range []string{"96 H264/90000", "96 H264", "96 H264/", "96 H264/90000/2", "96  H264/90000", " 96 H264/90000", "96 /90000", "96 a/b/90000", "096 VP8/90000",
+			"300 VP8/90000", "96 VP8/9000x", "x VP8/90000", "96", "", "97 VP9/90000"} {
+			for _, extra := range []string{"", "a=rtpmap:97 VP8/90000\r\n", "a=fmtp:96 packetization-mode=1\r\n"} {
+				rn.checkText([]byte("v=0\r\ns=x\r\nm=video 0 RTP/AVP "+ptTok+"\r\n"+extra+"a=rtpmap:"+rm+"\r\n"), "smart-payload-type", "smart")
+				rn.checkText([]byte("v=0\r\ns=x\r\nm=video 0 RTP/AVP "+ptTok+" 97\r\na=rtpmap:"+rm+"\r\n"+extra), "smart-payload-type", "smart")
+			}
+		}
+	}
 	// random text
 	for i := 0; i < c.N(2000, 60000); i++ {
 		rn.checkText(randomText(c.Rng), "random", fmt.Sprintf("rand-%d", i))
